@@ -26,6 +26,8 @@ type Cmd struct {
 	Opaque   uint32   `json:"opaque,omitempty"`
 	QuietSet bool     `json:"quiet,omitempty"`
 	Raw      []byte   `json:"raw,omitempty"`
+	// NonQuiet marks every key of a handler-level multi-get as non-quiet (what the text parser produces).
+	NonQuiet bool `json:"non_quiet,omitempty"`
 	// Port selects main (0) or batch (1) port for shapes that alternate.
 	Port int `json:"port,omitempty"`
 }
